@@ -220,7 +220,12 @@ def r3(ctx):
     ctx.check("unbounded_depth" not in txt, "C05.R3", "Cargo.toml", "no-unbounded_depth", "serde_json's unbounded_depth feature is not enabled")
 
 
-RULES = {"C05.R1": r1, "C05.R2": r2, "C05.R3": r3}
+RULES = {"C05.R1": r1, "C05.R2": r2, "C05.R3": r3,
+         # "... and the serialised form decodes again": what the writers read through the accessors is what is there
+         # (an accessor that hides an entry shortens the written table under the tokens' indices), and the data URL
+         # written is one the reader accepts
+         "C05.R4": lambda ctx: __import__("rules.foundations", fromlist=["x"]).accessors(ctx, "C05.R4", None),
+         "C05.R5": lambda ctx: __import__("rules.detrules", fromlist=["x"]).data_url_pairing(ctx, "C05.R5")}
 
 
 def check(ctx):
